@@ -9,13 +9,16 @@ import (
 	"github.com/go-gts/gts/seqio"
 )
 
-//verif:harness prop=C15 quick=2 thorough=2 merge=concrete timeout=1500
-//verif:bounds gts delete with locator `gene`: linear record of 5 (quick) / 6 (thorough) symbolic residues with 2 (quick) / 3 (thorough) gene features (ranges on either strand, symbolic coordinates: overlapping, nested, coinciding, unsorted); options: plain / -e (erase)
+//verif:harness prop=C15 quick=3 thorough=3 merge=concrete timeout=1500
+//verif:bounds gts delete with locator `gene`: linear record of 5 (quick) / 6 (thorough) symbolic residues with 2 (quick) / 3 (thorough) gene features (ranges on either strand, symbolic coordinates: overlapping, nested, coinciding, unsorted); options: plain / -e (erase); third shard: plain, 3 genes on 4 (quick) / 5 (thorough) residues (a region containing a second one and overlapped by a third needs three)
 //verif:assume scanner = queue of harness-built records, writer = capturing sink, cmd.IsTerminal = false, --no-cache (DESIGN §2.5); natively the real reader/writer/command run on real files
 func VH_C15_delete() {
-	sh := vShard(2)
+	sh := vShard(3)
 	L, nf := 5+vTier(), 2+vTier()
-	erase := sh%2 == 1
+	erase := sh == 1
+	if sh == 2 {
+		nf, L = 3, 4+vTier()
+	}
 	gb, data, genes := vGenRecord(L, nf, false)
 	args := []string{"--no-cache", "gene"}
 	if erase {
